@@ -472,5 +472,14 @@ M("r10-fragments-definitions-and", "C01", "C04.R19", RFF2, "    root_type_def = 
 M("r10-custom-scalars-arms-swapped", "C14", "C04.R19", CUF, "self.custom_scalars = custom_scalars if custom_scalars else {}", "self.custom_scalars = {} if custom_scalars else custom_scalars")
 M("r10-benign-default-is-none", "C14", None, CUF, "self.custom_scalars = custom_scalars if custom_scalars else {}", "self.custom_scalars = {} if custom_scalars is None else custom_scalars")
 M("r10-benign-default-or", "C14", None, CUF, "self.custom_scalars = custom_scalars if custom_scalars else {}", "self.custom_scalars = custom_scalars or {}")
+# ----------------------------------------------------------------------- round-11 rules (contracts between functions)
+M("r11-flavour-flag-negated", "C12", "C12.R5", PKF, "            async_=self.async_client,\n        )\n\n    def _include_exceptions", "            async_=not self.async_client,\n        )\n\n    def _include_exceptions")
+M("r11-flavour-flag-constant", "C12", "C12.R5", PKF, "        self.async_client = async_client\n", "        self.async_client = True\n")
+M("r11-benign-format-lower-first", "C16", None, "settings.py", "return Path(self.target_file_path).suffix[1:].lower()", "return Path(self.target_file_path).suffix.lower()[1:]")
+M("r11-format-stem", "C16", "C16.R9", "settings.py", "return Path(self.target_file_path).suffix[1:].lower()", "return Path(self.target_file_path).name.split('.')[1].lower()")
+M("r11-benign-import-list-order", "C06", None, "client_generators/input_types.py", "generate_import_from([FIELD_CLASS, PLAIN_SERIALIZER], PYDANTIC_MODULE)", "generate_import_from([PLAIN_SERIALIZER, FIELD_CLASS], PYDANTIC_MODULE)")
+M("r11-literal-not-imported", "C05", "C04.R20", "client_generators/result_types.py", "[OPTIONAL, UNION, ANY, LIST, LITERAL, ANNOTATED], TYPING_MODULE", "[OPTIONAL, UNION, ANY, LIST, ANNOTATED], TYPING_MODULE")
+M("r11-exported-unfiltered-enums", "C09", "C09.R6", "client_generators/enums.py", "self._generated_public_names = [class_def.name for class_def in class_defs]", "self._generated_public_names = [class_def.name for class_def in self._class_defs]")
+M("r11-benign-exported-names-loop", "C09", None, "client_generators/enums.py", "        self._generated_public_names = [class_def.name for class_def in class_defs]\n", "        names = [class_def.name for class_def in class_defs]\n        self._generated_public_names = names\n")
 
 from . import mutants_seeded  # noqa: F401,E402  (mutants generated from the confirmed seeded changes)
